@@ -444,6 +444,19 @@ Definition extend_pairs (st : nat * bool) (k : nat) (inner_trailing : bool) : na
 Definition prepend (ops : list op) (r : result) : result :=
   match r with ROk l => ROk (ops ++ l) | RErr l => RErr (ops ++ l) end.
 
+(* the `if` / `while` conditions of a function as extracted by the translator (Gen.fn_guards) *)
+Fixpoint lookup_guards (k : string) (l : list (string * list string)) : list string :=
+  match l with
+  | [] => []
+  | (k', g) :: r => if String.eqb k k' then g else lookup_guards k r
+  end.
+Definition has_guard (fn_key cond : string) : bool :=
+  existsb (String.eqb cond) (lookup_guards fn_key fn_guards).
+
+
+(* into.rs:362 the guard of `convs.tys.push_punct(comma)` in parse_inner, as it is written in the source *)
+Definition pi_guard : bool := has_guard "into.rs|parse"%string "! convs . tys . empty_or_trailing ( )"%string.
+
 Fixpoint into_loop (st : nat * bool) (items : list into_item) : result :=
   match items with
   | [] => ROk []
@@ -451,8 +464,9 @@ Fixpoint into_loop (st : nat * bool) (items : list into_item) : result :=
   | IOwned inner comma :: r =>                                   (* parse_inner, :344-369 *)
       let st1 := match inner with None => st | Some (k, tr) => extend_pairs st k tr end in
       if comma then
-        if empty_or_trailing st1 then into_loop st1 r
-        else prepend [OPushPunct (empty_or_trailing st1)] (into_loop (fst st1, true) r)   (* :363 *)
+        if pi_guard && empty_or_trailing st1 then into_loop st1 r      (* `if !convs.tys.empty_or_trailing()` *)
+        else prepend [OPushPunct (empty_or_trailing st1)] (into_loop (fst st1, true) r)   (* :363; without that
+                                                       guard in the source the push is modelled as unconditional *)
       else match r with
            | [] => ROk []
            | _ :: _ => RErr []                                   (* :366-368 expected `,` (since /repo 4f1b004) *)
@@ -601,7 +615,7 @@ Definition classification : list (string * cls) := [
   (* error.rs:362 is_type_path_ends_with_segment  --  ty . path . segments . last ( ) . unwrap ( ) *)
   ("error.rs|is_type_path_ends_with_segment|unwrap|42fb213e", Unreachable "a parsed syn::Path has at least one segment (syn invariant)");
   (* error.rs:388 infer_source_field  --  ( backtrace + 1 ) % 2 *)
-  ("error.rs|infer_source_field|arith|c0de0e96", Discharged "C18_infer_source_rem_safe");
+  ("error.rs|infer_source_field|arith|c0de0e96", Discharged "C18_infer_source_arith_safe");
   (* error.rs:390 infer_source_field  --  parsed_fields . data . infos [ source ] *)
   ("error.rs|infer_source_field|index|2569c72b", Discharged "C18_error_index_safe");
   (* fmt/debug.rs:23 expand  --  format_ident ! ( '{}' , trait_name_to_attribute_name ( 'Debug' ) ) *)
@@ -665,7 +679,7 @@ Definition classification : list (string * cls) := [
   (* fmt/mod.rs:227 transparent_call_on_fields  --  parse_quote ! { & ( # expr ) } *)
   ("fmt/mod.rs|transparent_call_on_fields|parse_quote|cc0c0de2", Unreachable "&( tokens ) is two token trees without top-level comma; parsing::Expr accepts any non-empty comma-free token sequence (scanner totality: C16 C18_split_total)");
   (* fmt/mod.rs:491 parse_fmt_string  --  n - 1 *)
-  ("fmt/mod.rs|parse_fmt_string|arith|04853a0b", Discharged "C18_placeholder_counter_safe");
+  ("fmt/mod.rs|parse_fmt_string|arith|04853a0b", Discharged "C18_parse_fmt_counter_safe");
   (* fmt/mod.rs:596 trait_name_to_attribute_name  --  unimplemented ! ( ) *)
   ("fmt/mod.rs|trait_name_to_attribute_name|unimplemented|90b420f3", Discharged "C18_fmt_trait_names_total");
   (* fmt/mod.rs:658 contains_generics  --  unimplemented ! ( 'syntax is not supported by `derive_more`, please report a bug' , ) *)
@@ -677,25 +691,25 @@ Definition classification : list (string * cls) := [
   (* fmt/mod.rs:733 fmt_args_idents  --  format_ident ! ( '_{i}' ) *)
   ("fmt/mod.rs|fmt_args_idents|format_ident|6c8df843", Unreachable r_ident_const);
   (* fmt/mod.rs:614 contains_generics  --  qself . ty . contains_generics ( type_params ) *)
-  ("fmt/mod.rs|contains_generics|recursion|0d0e2b4a", ProbeOnly);
+  ("fmt/mod.rs|contains_generics|recursion|0d0e2b4a", Discharged "C18_recursion_depth_le_nesting");
   (* fmt/mod.rs:622 contains_generics  --  path . contains_generics ( type_params ) *)
-  ("fmt/mod.rs|contains_generics|recursion|e02f3c5d", ProbeOnly);
+  ("fmt/mod.rs|contains_generics|recursion|e02f3c5d", Discharged "C18_recursion_depth_le_nesting");
   (* fmt/mod.rs:632 contains_generics  --  elem . contains_generics ( type_params ) *)
-  ("fmt/mod.rs|contains_generics|recursion|1e0c061e", ProbeOnly);
+  ("fmt/mod.rs|contains_generics|recursion|1e0c061e", Discharged "C18_recursion_depth_le_nesting");
   (* fmt/mod.rs:638 contains_generics  --  arg . ty . contains_generics ( type_params ) *)
-  ("fmt/mod.rs|contains_generics|recursion|7eee60fb", ProbeOnly);
+  ("fmt/mod.rs|contains_generics|recursion|7eee60fb", Discharged "C18_recursion_depth_le_nesting");
   (* fmt/mod.rs:642 contains_generics  --  ty . contains_generics ( type_params ) *)
-  ("fmt/mod.rs|contains_generics|recursion|3e3ccfc5", ProbeOnly);
+  ("fmt/mod.rs|contains_generics|recursion|3e3ccfc5", Discharged "C18_recursion_depth_le_nesting");
   (* fmt/mod.rs:648 contains_generics  --  ty . contains_generics ( type_params ) *)
-  ("fmt/mod.rs|contains_generics|recursion|3e3ccfc5#1", ProbeOnly);
+  ("fmt/mod.rs|contains_generics|recursion|3e3ccfc5#1", Discharged "C18_recursion_depth_le_nesting");
   (* fmt/mod.rs:654 contains_generics  --  path . contains_generics ( type_params ) *)
-  ("fmt/mod.rs|contains_generics|recursion|e02f3c5d#1", ProbeOnly);
+  ("fmt/mod.rs|contains_generics|recursion|e02f3c5d#1", Discharged "C18_recursion_depth_le_nesting");
   (* fmt/mod.rs:694 contains_generics  --  ty . contains_generics ( type_params ) *)
-  ("fmt/mod.rs|contains_generics|recursion|3e3ccfc5#2", ProbeOnly);
+  ("fmt/mod.rs|contains_generics|recursion|3e3ccfc5#2", Discharged "C18_recursion_depth_le_nesting");
   (* fmt/mod.rs:708 contains_generics  --  ty . contains_generics ( type_params ) *)
-  ("fmt/mod.rs|contains_generics|recursion|3e3ccfc5#3", ProbeOnly);
+  ("fmt/mod.rs|contains_generics|recursion|3e3ccfc5#3", Discharged "C18_recursion_depth_le_nesting");
   (* fmt/mod.rs:712 contains_generics  --  ty . contains_generics ( type_params ) *)
-  ("fmt/mod.rs|contains_generics|recursion|3e3ccfc5#4", ProbeOnly);
+  ("fmt/mod.rs|contains_generics|recursion|3e3ccfc5#4", Discharged "C18_recursion_depth_le_nesting");
   (* fmt/parsing.rs:530 identifier  --  input [ .. ( input . len ( ) - i . len ( ) ) ] *)
   ("fmt/parsing.rs|identifier|slice|a0105c1d", Discharged "C18_identifier_suffix");
   (* fmt/parsing.rs:530 identifier  --  input . len ( ) - i . len ( ) *)
@@ -778,18 +792,18 @@ Definition classification : list (string * cls) := [
   ("unwrap.rs|expand|format_ident|ffc23e12", ProbeOnly);
   (* additions / increments (an overflow needs a usize or i32 counter to reach its maximum) *)
   (* error.rs:403 infer_source_field  --  backtrace + 1 *)
-  ("error.rs|infer_source_field|arith|17498fbd", Unreachable "backtrace is a position among the enabled fields (parse_field_impl, < fields.len() = 2 here): backtrace + 1 <= 2");
+  ("error.rs|infer_source_field|arith|17498fbd", Discharged "C18_infer_source_arith_safe");
   (* fmt/mod.rs:496,501 parse_fmt_string  --  n += 1 *)
-  ("fmt/mod.rs|parse_fmt_string|arith|98c4e639", Unreachable "n counts the placeholders of the literal seen so far, at most two increments per placeholder: n <= 2 * (byte length of the literal)");
-  ("fmt/mod.rs|parse_fmt_string|arith|98c4e639#1", Unreachable "n counts the placeholders of the literal seen so far, at most two increments per placeholder: n <= 2 * (byte length of the literal)");
+  ("fmt/mod.rs|parse_fmt_string|arith|98c4e639", Discharged "C18_parse_fmt_counter_safe");
+  ("fmt/mod.rs|parse_fmt_string|arith|98c4e639#1", Discharged "C18_parse_fmt_counter_safe");
   (* from.rs:223 expand  --  i += 1 *)
-  ("from.rs|expand|arith|a37fd462", Unreachable "i is incremented once per field by expand_fields: i <= number of fields");
+  ("from.rs|expand|arith|a37fd462", Discharged "C18_from_forward_counter_safe");
   (* mul_assign_like.rs:14 expand  --  .. . to_string ( ) + '_assign' *)
   ("mul_assign_like.rs|expand|arith|85e2ad40", Unreachable "String + &str concatenation, not integer arithmetic");
   (* parsing.rs:156 balanced_pair  --  count += 1 *)
-  ("parsing.rs|balanced_pair|arith|5230535b", Unreachable "count is an i32 incremented at most once per token tree consumed: count <= 1 + number of token trees of the attribute, far below i32::MAX (2^31 tokens)");
+  ("parsing.rs|balanced_pair|arith|5230535b", Discharged "C18_balanced_pair_arith_safe");
   (* try_from.rs:116 to_tokens  --  inc += 1 *)
-  ("try_from.rs|to_tokens|arith|a905ebf0", Unreachable "inc is a usize incremented once per variant and reset at every explicit discriminant: inc <= number of variants; it is only printed (Literal::usize_unsuffixed), never added to a discriminant at expansion time");
+  ("try_from.rs|to_tokens|arith|a905ebf0", Discharged "C18_try_from_counter_safe");
   (* into.rs:363 parse  --  convs . tys . push_punct ( comma ) *)
   ("into.rs|parse|vecop|a6902915", Discharged "C18_into_loop_safe");
   (* into.rs:396 parse  --  out . owned . tys . push_value ( ty ) *)
@@ -831,7 +845,7 @@ Definition classification : list (string * cls) := [
   (* not_like.rs:135 enum_output_type_and_content  --  format_ident ! ( '__{i}' ) *)
   ("not_like.rs|enum_output_type_and_content|format_ident|924d8d3a#1", Unreachable r_ident_const);
   (* parsing.rs:146 balanced_pair  --  count -= 1 *)
-  ("parsing.rs|balanced_pair|arith|af1c0e62", Discharged "C18_balanced_pair_count_safe");
+  ("parsing.rs|balanced_pair|arith|af1c0e62", Discharged "C18_balanced_pair_arith_safe");
   (* parsing.rs:120 punct  --  c . punct ( ) *)
   ("parsing.rs|punct|recursion|e8ff6c22", Unreachable r_not_self_call);
   (* parsing.rs:130 token_tree  --  c . token_tree ( ) *)
@@ -869,7 +883,7 @@ Definition classification : list (string * cls) := [
   (* unwrap.rs:152 failed_block  --  it . variant . unwrap ( ) *)
   ("unwrap.rs|failed_block|unwrap|245f1c19", Unreachable r_variant_some);
   (* utils.rs:108 from_attr_name  --  panic ! ( '`{name}` is not a `RefType`' ) *)
-  ("utils.rs|from_attr_name|panic|66764741", Unreachable "only called with wrapper_name in {owned, ref, ref_mut}: the enclosing match arm (utils.rs:925-928) admits no other Some(_)");
+  ("utils.rs|from_attr_name|panic|66764741", Discharged "C18_meta_parser_safe");
   (* utils.rs:114 numbered_vars  --  format_ident ! ( '__{prefix}{i}' ) *)
   ("utils.rs|numbered_vars|format_ident|43977d22", Unreachable r_ident_const);
   (* utils.rs:123 field_idents  --  f . ident . as_ref ( ) . expect ( 'Tried to get field names of a tuple struct' ) *)
@@ -917,9 +931,9 @@ Definition classification : list (string * cls) := [
   (* utils.rs:795 matcher  --  bindings [ found_index ] *)
   ("utils.rs|matcher|index|691b4a5c", Discharged "C18_matcher_index_safe");
   (* utils.rs:918 parse_punctuated_nested_meta  --  path . get_ident ( ) . unwrap ( ) *)
-  ("utils.rs|parse_punctuated_nested_meta|unwrap|3c8cd8ef", Unreachable "guarded by path.is_ident(param) just above; is_ident is defined through get_ident (syn::Path::is_ident / PathOrKeyword::is_ident)");
+  ("utils.rs|parse_punctuated_nested_meta|unwrap|3c8cd8ef", Discharged "C18_meta_parser_safe");
   (* utils.rs:1015 parse_punctuated_nested_meta  --  path . get_ident ( ) . unwrap ( ) *)
-  ("utils.rs|parse_punctuated_nested_meta|unwrap|3c8cd8ef#1", Unreachable "guarded by path.is_ident(param) just above; is_ident is defined through get_ident (syn::Path::is_ident / PathOrKeyword::is_ident)");
+  ("utils.rs|parse_punctuated_nested_meta|unwrap|3c8cd8ef#1", Discharged "C18_meta_parser_safe");
   (* utils.rs:1770 ty  --  syn :: Ident :: new ( 'isize' , Span :: call_site ( ) ) *)
   ("utils.rs|ty|ident_new|01f29f71", Unreachable "constant, valid identifier / lifetime");
   (* utils.rs:1776 parse  --  unreachable ! ( 'call `attr::ParseMultiple::parse_attr_with()` instead' ) *)
@@ -939,9 +953,9 @@ Definition classification : list (string * cls) := [
   (* utils.rs:809 initializer  --  self . multi_field_data . initializer ( initializers ) *)
   ("utils.rs|initializer|recursion|d6a24ec2", Unreachable r_not_self_call);
   (* utils.rs:895 parse_punctuated_nested_meta  --  parse_punctuated_nested_meta ( info , & list . parse_args_with ( Punctuated :: parse_termi *)
-  ("utils.rs|parse_punctuated_nested_meta|recursion|038f77df", Unreachable "depth <= 2: the nested call passes Some(wrapper); with a wrapper the `not` arm errors and only the `types` arms (parse_nested = false) or an error remain");
+  ("utils.rs|parse_punctuated_nested_meta|recursion|038f77df", Discharged "C18_meta_parser_safe");
   (* utils.rs:994 parse_punctuated_nested_meta  --  parse_punctuated_nested_meta ( info , & list . parse_args_with ( Punctuated :: parse_termi *)
-  ("utils.rs|parse_punctuated_nested_meta|recursion|aa459170", Unreachable "depth <= 2: the nested call passes Some(wrapper); with a wrapper the `not` arm errors and only the `types` arms (parse_nested = false) or an error remain");
+  ("utils.rs|parse_punctuated_nested_meta|recursion|aa459170", Discharged "C18_meta_parser_safe");
   (* utils.rs:1086 is_ident  --  p . is_ident ( ident ) *)
   ("utils.rs|is_ident|recursion|d6cebafe", Unreachable r_not_self_call);
   (* utils.rs:1093 get_ident  --  p . get_ident ( ) *)
@@ -950,21 +964,22 @@ Definition classification : list (string * cls) := [
      inside the local closure used_in_path -- is on a strict sub-term of the syn::Type argument (qself, generic /
      parenthesized path arguments, AssocType bindings, elem of Reference/Array/Slice/Group/Paren/Ptr, tuple
      elements, fn inputs/output, path arguments of a trait-object bound), so it terminates by structural descent
-     with call depth <= nesting depth of the type.  No model of the depth/stack relation: the sites stay ProbeOnly
-     (deep-nesting probes, 200-2000 levels, through derive(Error) with a type parameter innermost). *)
-  ("utils.rs|is_type_parameter_used_in_type|recursion|afd4741b", ProbeOnly);
-  ("utils.rs|is_type_parameter_used_in_type|recursion|e0bc3a96#1", ProbeOnly);
-  ("utils.rs|is_type_parameter_used_in_type|recursion|e0bc3a96#2", ProbeOnly);
-  ("utils.rs|is_type_parameter_used_in_type|recursion|e0bc3a96#3", ProbeOnly);
-  ("utils.rs|is_type_parameter_used_in_type|recursion|e0bc3a96#4", ProbeOnly);
-  ("utils.rs|is_type_parameter_used_in_type|recursion|8e167e74", ProbeOnly);
-  ("utils.rs|is_type_parameter_used_in_type|recursion|6ef8c11d", ProbeOnly);
+     with call depth <= nesting depth of the type: C18_recursion_depth_le_nesting (Part C.4).  The relation between
+     depth and stack bytes is not modelled; the deep-nesting probes (200-2000 levels, through derive(Error) with a
+     type parameter innermost) remain the check of that part. *)
+  ("utils.rs|is_type_parameter_used_in_type|recursion|afd4741b", Discharged "C18_recursion_depth_le_nesting");
+  ("utils.rs|is_type_parameter_used_in_type|recursion|e0bc3a96#1", Discharged "C18_recursion_depth_le_nesting");
+  ("utils.rs|is_type_parameter_used_in_type|recursion|e0bc3a96#2", Discharged "C18_recursion_depth_le_nesting");
+  ("utils.rs|is_type_parameter_used_in_type|recursion|e0bc3a96#3", Discharged "C18_recursion_depth_le_nesting");
+  ("utils.rs|is_type_parameter_used_in_type|recursion|e0bc3a96#4", Discharged "C18_recursion_depth_le_nesting");
+  ("utils.rs|is_type_parameter_used_in_type|recursion|8e167e74", Discharged "C18_recursion_depth_le_nesting");
+  ("utils.rs|is_type_parameter_used_in_type|recursion|6ef8c11d", Discharged "C18_recursion_depth_le_nesting");
   (* utils.rs:1272 is_type_parameter_used_in_type  --  is_type_parameter_used_in_type ( type_parameters , & qself . ty ) *)
-  ("utils.rs|is_type_parameter_used_in_type|recursion|b615f074", ProbeOnly);
+  ("utils.rs|is_type_parameter_used_in_type|recursion|b615f074", Discharged "C18_recursion_depth_le_nesting");
   (* utils.rs:1289 is_type_parameter_used_in_type  --  is_type_parameter_used_in_type ( type_parameters , ty ) *)
-  ("utils.rs|is_type_parameter_used_in_type|recursion|e0bc3a96", ProbeOnly);
+  ("utils.rs|is_type_parameter_used_in_type|recursion|e0bc3a96", Discharged "C18_recursion_depth_le_nesting");
   (* utils.rs:1303 is_type_parameter_used_in_type  --  is_type_parameter_used_in_type ( type_parameters , & ty . elem ) *)
-  ("utils.rs|is_type_parameter_used_in_type|recursion|027519a3", ProbeOnly);
+  ("utils.rs|is_type_parameter_used_in_type|recursion|027519a3", Discharged "C18_recursion_depth_le_nesting");
   (* utils.rs:1619 parse_attr_with  --  L :: parse_attr_with ( attr , parser ) *)
   ("utils.rs|parse_attr_with|recursion|a49ff46d", Unreachable r_not_self_call);
   (* utils.rs:1621 parse_attr_with  --  R :: parse_attr_with ( attr , parser ) *)
@@ -988,11 +1003,11 @@ Definition classification : list (string * cls) := [
   (* utils.rs:2195 len  --  self . len ( ) *)
   ("utils.rs|len|recursion|85f74167#1", Unreachable r_not_self_call);
   (* utils.rs:2336 visit_type_path  --  syn :: visit :: visit_type_path ( self , tp ) *)
-  ("utils.rs|visit_type_path|recursion|6a21a80d", ProbeOnly);
+  ("utils.rs|visit_type_path|recursion|6a21a80d", Discharged "C18_recursion_depth_le_nesting");
   (* utils.rs:2342 visit_lifetime  --  syn :: visit :: visit_lifetime ( self , lf ) *)
-  ("utils.rs|visit_lifetime|recursion|15ab7ea5", ProbeOnly);
+  ("utils.rs|visit_lifetime|recursion|15ab7ea5", Discharged "C18_recursion_depth_le_nesting");
   (* utils.rs:2351 visit_expr_path  --  syn :: visit :: visit_expr_path ( self , ep ) *)
-  ("utils.rs|visit_expr_path|recursion|e12480a8", ProbeOnly)
+  ("utils.rs|visit_expr_path|recursion|e12480a8", Discharged "C18_recursion_depth_le_nesting")
 ].
 
 Fixpoint lookup (k : string) (l : list (string * cls)) : option cls :=
@@ -1037,3 +1052,364 @@ Definition unaccounted_sites : list string :=
 (** entries of the table that no longer name a site of the source (stale after a code change) *)
 Definition stale_entries : list string :=
   filter (fun k => negb (existsb (fun s => String.eqb (s_key s) k) site_list)) (map fst classification).
+
+(* ========================================================================================== *)
+(** * Part C (growth round): models tied to expressions / guards extracted from the source,
+      the legacy attribute-meta parser, the legacy-syntax detectors, and recursion depth *)
+
+(** ** C.1 Arithmetic expressions as extracted by the translator (Gen.arith_table, Gen.fn_guards)
+
+    The operands are not written here by hand: [site_exp key] is the expression tree of the k-th
+    arithmetic site of a function, re-extracted from impl/src on every run.  A variable the model does
+    not provide, an unknown operator or a missing site evaluates to [OUnreachable], so a change of an
+    operand or of a guard shows up in the theorems below. *)
+Local Open Scope nat_scope.
+Local Open Scope list_scope.
+
+Definition env := list (string * nat).
+
+Fixpoint env_get (x : string) (e : env) : nat :=
+  match e with
+  | [] => 0
+  | (y, v) :: r => if String.eqb x y then v else env_get x r
+  end.
+
+Definition env_has (x : string) (e : env) : bool := existsb (fun p => String.eqb x (fst p)) e.
+
+Fixpoint lookup_exp (k : string) (l : list (string * aexp)) : aexp :=
+  match l with
+  | [] => AUnknown
+  | (k', a) :: r => if String.eqb k k' then a else lookup_exp k r
+  end.
+Definition site_exp (k : string) : aexp := lookup_exp k arith_table.
+
+(* an addition must stay below [lim] (usize::MAX / i32::MAX in the code; the theorems prove bounds in terms
+   of the size of the input) *)
+Inductive aop_res := AR (v : nat) (ops : list op).
+
+Definition len_var (x : string) : string := String.append x ".len".
+
+Fixpoint aeval (e : env) (a : aexp) : nat :=
+  match a with
+  | AVar x => env_get x e
+  | ALen x => env_get (len_var x) e
+  | AConst n => n
+  | ABin o l r =>
+      match o with
+      | APlus => aeval e l + aeval e r
+      | AMinus => aeval e l - aeval e r
+      | ARem => aeval e l mod aeval e r
+      | ADiv => aeval e l / aeval e r
+      | AMul | AShl | AShr => 0
+      end
+  | AAssign _ _ _ | ANeg _ | AUnknown => 0
+  end.
+
+(* one more partial operation: an addition that must not exceed a limit *)
+Definition add_ok (a b lim : nat) : op := OSub lim (a + b).      (* ok iff a + b <= lim *)
+
+Fixpoint aops (lim : nat) (e : env) (a : aexp) : list op :=
+  match a with
+  | AVar x => if env_has x e then [] else [OUnreachable]
+  | ALen x => if env_has (len_var x) e then [] else [OUnreachable]
+  | AConst _ => []
+  | ABin o l r =>
+      aops lim e l ++ aops lim e r ++
+      match o with
+      | APlus => [add_ok (aeval e l) (aeval e r) lim]
+      | AMinus => [OSub (aeval e l) (aeval e r)]
+      | ARem | ADiv => [ORem (aeval e l) (aeval e r)]
+      | AMul | AShl | AShr => [OUnreachable]              (* not used by the code today: unmodelled *)
+      end
+  | AAssign _ _ _ | ANeg _ | AUnknown => [OUnreachable]
+  end.
+
+(* statements `x op= e` *)
+Definition aexec (lim : nat) (e : env) (a : aexp) : env * list op :=
+  match a with
+  | AAssign o x r =>
+      let rhs := ABin o (AVar x) r in
+      ((x, aeval e rhs) :: e, aops lim e rhs)
+  | _ => (e, [OUnreachable])
+  end.
+
+(** error.rs infer_source_field: `let source = (backtrace + 1) % 2;` under `if fields.len() != 2 { return None }` *)
+Definition isf_exp : aexp := site_exp "error.rs|infer_source_field|arith#1".
+Definition isf_guard : bool := has_guard "error.rs|infer_source_field" "fields . len ( ) != 2".
+
+Definition infer_source_arith (nfields b : nat) : option (nat * list op) :=
+  if isf_guard && negb (nfields =? 2) then None                     (* return None *)
+  else Some (aeval [("backtrace", b)] isf_exp, aops nfields [("backtrace", b)] isf_exp).
+
+(** fmt/mod.rs Placeholder::parse_fmt_string: the counter `n` over the formats of the literal;
+    a format is (precision is `.*`, has an explicit argument) *)
+Definition pfs_star : aexp := site_exp "fmt/mod.rs|parse_fmt_string|arith#0".   (* n += 1 *)
+Definition pfs_next : aexp := site_exp "fmt/mod.rs|parse_fmt_string|arith#1".   (* n += 1 *)
+Definition pfs_pos : aexp := site_exp "fmt/mod.rs|parse_fmt_string|arith#2".    (* n - 1 *)
+
+Fixpoint parse_fmt_counter (lim n : nat) (fs : list (bool * bool)) : list op :=
+  match fs with
+  | [] => []
+  | (star, has_arg) :: r =>
+      let s1 := if star then aexec lim [("n", n)] pfs_star else ([("n", n)], []) in
+      let s2 := if has_arg then (fst s1, [])
+                else let s := aexec lim (fst s1) pfs_next in (fst s, snd s ++ aops lim (fst s) pfs_pos) in
+      snd s1 ++ snd s2 ++ parse_fmt_counter lim (env_get "n" (fst s2)) r
+  end.
+
+(** parsing.rs balanced_pair (as of /repo 026115d): `while count != 0`, steps close / open / arrow / other *)
+Inductive bp_step2 := B2Close | B2Open | B2Arrow | B2Other.
+Definition bp_dec : aexp := site_exp "parsing.rs|balanced_pair|arith#0".     (* count -= 1 *)
+Definition bp_inc : aexp := site_exp "parsing.rs|balanced_pair|arith#1".     (* count += 1 *)
+Definition bp_guard : bool := has_guard "parsing.rs|balanced_pair" "count != 0".
+
+Fixpoint balanced_pair_x (lim count : nat) (steps : list bp_step2) : list op :=
+  match steps with
+  | [] => []
+  | s :: r =>
+      if bp_guard && (count =? 0) then []
+      else match s with
+           | B2Close => let st := aexec lim [("count", count)] bp_dec in
+                        snd st ++ balanced_pair_x lim (env_get "count" (fst st)) r
+           | B2Open => let st := aexec lim [("count", count)] bp_inc in
+                       snd st ++ balanced_pair_x lim (env_get "count" (fst st)) r
+           | B2Arrow | B2Other => balanced_pair_x lim count r
+           end
+  end.
+
+(** try_from.rs Expansion::to_tokens: `inc` over the variants (true = the variant has an explicit discriminant,
+    which resets inc to 0), and from.rs Expansion::expand (forward arm): `i` over the fields *)
+Definition tf_inc : aexp := site_exp "try_from.rs|to_tokens|arith#0".       (* inc += 1 *)
+Fixpoint try_from_counter (lim inc : nat) (vs : list bool) : list op :=
+  match vs with
+  | [] => []
+  | d :: r => let inc0 := if d then 0 else inc in
+              let st := aexec lim [("inc", inc0)] tf_inc in
+              snd st ++ try_from_counter lim (env_get "inc" (fst st)) r
+  end.
+
+Definition ff_inc : aexp := site_exp "from.rs|expand|arith#0".              (* i += 1 *)
+Fixpoint from_forward_counter (lim i n : nat) : list op :=
+  match n with
+  | 0 => []
+  | S n' => let st := aexec lim [("i", i)] ff_inc in
+            snd st ++ from_forward_counter lim (env_get "i" (fst st)) n'
+  end.
+
+(* ------------------------------------------------------------------------------------------ *)
+(** ** C.2 utils.rs:813-1042 get_meta_info / parse_punctuated_nested_meta (the attribute parser of
+    every derive built on [State])
+
+    A meta is a path or `path(tokens)`.  [id] is [Some name] when the path is a single identifier.
+    For a list, the same tokens are parsed either as nested metas ([inner], valid only when
+    [inner_ok]) or, in the `types` arms, as a list of types ([tys]: [None] = does not parse; an element
+    is [false] when it makes the arm return an Err). *)
+Inductive pmeta :=
+| PMPath (id : option string)
+| PMList (id : option string) (inner_ok : bool) (inner : list pmeta) (tys : option (list bool)).
+
+Definition id_is (id : option string) (s : string) : bool :=
+  match id with Some x => String.eqb x s | None => false end.
+Definition id_allowed (allowed : list string) (id : option string) : bool := existsb (id_is id) allowed.
+Definition opt_is (w : option string) (s : string) : bool := id_is w s.
+Definition ref_names : list string := ["owned"; "ref"; "ref_mut"]%string.
+Definition is_ref_name (s : string) : bool := existsb (String.eqb s) ref_names.
+
+(* result: (Ok?, operations, depth of nested invocations below this one) *)
+Definition pres := (bool * list op * nat)%type.
+Definition p_ok (r : pres) : bool := fst (fst r).
+Definition p_ops_of (r : pres) : list op := snd (fst r).
+Definition p_depth (r : pres) : nat := snd r.
+
+(* utils.rs:957-979: one `from_attr_name(n)` per listed type when there is a wrapper *)
+Fixpoint types_arm (wrapper : option string) (tys : list bool) : bool * list op :=
+  match tys with
+  | [] => (true, [])
+  | false :: _ => (false, [])
+  | true :: r =>
+      let o := match wrapper with Some n => [OUnwrap (is_ref_name n)] | None => [] end in   (* :108 panic! *)
+      let rr := types_arm wrapper r in (fst rr, o ++ snd rr)
+  end.
+
+Fixpoint ppnm_meta (allowed : list string) (wrapper : option string) (m : pmeta) {struct m} : pres :=
+  let run := fun (w' : option string) (ms : list pmeta) =>
+    (fix go (l : list pmeta) : pres :=
+       match l with
+       | [] => (true, [], 0)
+       | x :: r =>
+           let rx := ppnm_meta allowed w' x in
+           if p_ok rx then let rr := go r in (p_ok rr, p_ops_of rx ++ p_ops_of rr, Nat.max (p_depth rx) (p_depth rr))
+           else (false, p_ops_of rx, p_depth rx)
+       end) ms in
+  match m with
+  | PMList id inner_ok inner tys =>
+      if id_is id "not" then                                             (* :887-901 *)
+        match wrapper with
+        | Some _ => (false, [], 0)
+        | None => if inner_ok then let r := run (Some "not"%string) inner in (p_ok r, p_ops_of r, S (p_depth r))
+                  else (false, [], 0)
+        end
+      else if negb (id_allowed allowed id) then (false, [], 0)            (* :905-914 *)
+      else
+        let unwrap := [OUnwrap (match id with Some _ => true | None => false end)] in   (* :918 get_ident().unwrap() *)
+        match id with
+        | None => (false, unwrap, 0)                                     (* the real code has panicked *)
+        | Some name =>
+            if (match wrapper with None => true | Some _ => false end) && is_ref_name name then   (* :920-922 *)
+              if inner_ok then let r := run (Some name) inner in (p_ok r, unwrap ++ p_ops_of r, S (p_depth r))
+              else (false, unwrap, 0)
+            else if String.eqb name "types" &&
+                    (match wrapper with None => true | Some w => is_ref_name w end) then          (* :925-980 *)
+              match tys with
+              | None => (false, unwrap, 0)
+              | Some l => let r := types_arm wrapper l in (fst r, unwrap ++ snd r, 0)
+              end
+            else (false, unwrap, 0)                                      (* :982-990 *)
+        end
+  | PMPath id =>
+      if negb (id_allowed allowed id) then (false, [], 0)                 (* :1004-1013 *)
+      else
+        let unwrap := [OUnwrap (match id with Some _ => true | None => false end)] in   (* :1015 *)
+        match id, wrapper with
+        | Some name, None =>
+            (existsb (String.eqb name) ["ignore"; "forward"; "owned"; "ref"; "ref_mut"; "source"; "backtrace"]%string,
+             unwrap, 0)
+        | Some name, Some w =>
+            (String.eqb w "not" && existsb (String.eqb name) ["forward"; "source"; "backtrace"]%string, unwrap, 0)
+        | None, _ => (false, unwrap, 0)
+        end
+  end.
+
+Fixpoint ppnm_list (allowed : list string) (wrapper : option string) (ms : list pmeta) : pres :=
+  match ms with
+  | [] => (true, [], 0)
+  | x :: r =>
+      let rx := ppnm_meta allowed wrapper x in
+      if p_ok rx then let rr := ppnm_list allowed wrapper r in
+                      (p_ok rr, p_ops_of rx ++ p_ops_of rr, Nat.max (p_depth rx) (p_depth rr))
+      else (false, p_ops_of rx, p_depth rx)
+  end.
+
+(* utils.rs:813-877 get_meta_info over the attributes whose first path segment is the derive's attribute name *)
+Inductive attr_shape := ASPath | ASList (parses : bool) (metas : list pmeta) | ASNameValue.
+
+Definition get_meta_info (allowed : list string) (attrs : list attr_shape) : pres :=
+  match attrs with
+  | [] => (true, [], 0)
+  | a :: rest =>
+      if match allowed with [] => true | _ => false end then (false, [], 0)
+      else match rest with
+           | _ :: _ => (false, [], 0)                                     (* only a single attribute *)
+           | [] =>
+               match a with
+               | ASPath => (existsb (String.eqb "ignore") allowed, [], 0)
+               | ASNameValue => (false, [], 0)
+               | ASList parses metas =>
+                   if parses then let r := ppnm_list allowed None metas in (p_ok r, p_ops_of r, S (p_depth r))
+                   else (false, [], 0)
+               end
+           end
+  end.
+
+(* ------------------------------------------------------------------------------------------ *)
+(** ** C.3 into.rs:476-626 check_legacy_syntax: the fold over the top-level metas *)
+Inductive lname := NOwned | NRef | NRefMut | NTypes | NOtherName.
+
+(* what `list.parse_args_with(..).ok()?.pop()?.into_value()` of an `owned(..)` list looks like *)
+Inductive linner := IParseFail | IEmpty | ILastNotList | ILastList (is_types : bool) (tl : option (list bool)).
+
+Inductive lmeta :=
+| LMPath (n : lname)
+| LMList (n : lname) (tl : option (list bool)) (inner : linner).
+(* [tl]: the list parsed as the arguments of `types(..)`: None = does not parse, an element is true when it is a
+   string literal or a path (pushed), false otherwise (`_ => return None`) *)
+
+(* :519-536 parse_list: Some n = n strings pushed *)
+Definition parse_list (is_types : bool) (tl : option (list bool)) : option nat :=
+  if negb is_types then None
+  else match tl with
+       | None => None
+       | Some l => if forallb (fun b => b) l then Some (length l) else None
+       end.
+
+Definition push_n (o : option nat) (n : nat) : option nat :=
+  match n with 0 => o | _ => Some (match o with Some k => k + n | None => n end) end.   (* get_or_insert_with(Vec::new).push *)
+Definition touch (o : option nat) : option nat := match o with Some k => Some k | None => Some 0 end.
+
+(* :548-566 parse_inner *)
+Definition parse_inner (m : lmeta) (attrs : option nat) : option (option nat) :=
+  match m with
+  | LMPath _ => Some (touch attrs)
+  | LMList _ _ inner =>
+      match inner with
+      | ILastList is_types tl => match parse_list is_types tl with Some n => Some (push_n attrs n) | None => None end
+      | _ => None
+      end
+  end.
+
+Definition lstate := (option nat * option nat * option nat * option nat)%type.     (* top_level, owned, ref, ref_mut *)
+
+Definition meta_name (m : lmeta) : lname := match m with LMPath n | LMList n _ _ => n end.
+
+(* :568-576 the closure of the try_fold *)
+Definition legacy_step (st : lstate) (m : lmeta) : option lstate :=
+  let '(top, owned, ref_, ref_mut) := st in
+  match meta_name m with
+  | NOwned => match parse_inner m owned with Some o => Some (top, o, ref_, ref_mut) | None => None end
+  | NRef => match parse_inner m ref_ with Some o => Some (top, owned, o, ref_mut) | None => None end
+  | NRefMut => match parse_inner m ref_mut with Some o => Some (top, owned, ref_, o) | None => None end
+  | n =>
+      match m with
+      | LMList _ tl _ => match parse_list (match n with NTypes => true | _ => false end) tl with
+                         | Some k => Some (push_n top k, owned, ref_, ref_mut)
+                         | None => None
+                         end
+      | LMPath _ => None
+      end
+  end.
+
+Fixpoint legacy_fold (st : lstate) (ms : list lmeta) : option lstate :=
+  match ms with
+  | [] => Some st
+  | m :: r => match legacy_step st m with Some st' => legacy_fold st' r | None => None end
+  end.
+
+(* the whole function: [metas = None] when the tokens do not parse as metas (`return Ok(())`);
+   result: (a legacy-syntax error is raised?, operations) *)
+Definition check_legacy_syntax (nfields : nat) (metas : option (list lmeta)) : bool * list op :=
+  let field_ops := len1_next nfields in                                          (* :493-500 *)
+  match metas with
+  | None => (false, field_ops)
+  | Some ms =>
+      match legacy_fold (None, None, None, None) ms with
+      | None => (false, field_ops)
+      | Some (top, owned, ref_, ref_mut) =>
+          if negb (existsb nonempty [top; owned; ref_; ref_mut]) then (false, field_ops)
+          else (true, field_ops ++ into_legacy top owned ref_ ref_mut)
+      end
+  end.
+
+(* ------------------------------------------------------------------------------------------ *)
+(** ** C.4 Recursion depth of the type walkers (fmt/mod.rs contains_generics, utils.rs
+    is_type_parameter_used_in_type, the syn visitors of generics_search): a type is a tree; a call on a node
+    recurses into some of its children ([sel parent i] = the i-th child is visited: short-circuiting `any`,
+    ignored arms) *)
+Inductive ty := TNode (children : list ty).
+
+Fixpoint ty_depth (t : ty) : nat :=
+  match t with
+  | TNode cs => S ((fix go (l : list ty) : nat := match l with [] => 0 | c :: r => Nat.max (ty_depth c) (go r) end) cs)
+  end.
+
+Section Walk.
+  Variable sel : ty -> nat -> bool.
+  Fixpoint call_depth (t : ty) : nat :=
+    match t with
+    | TNode cs =>
+        S ((fix go (i : nat) (l : list ty) : nat :=
+              match l with
+              | [] => 0
+              | c :: r => Nat.max (if sel t i then call_depth c else 0) (go (S i) r)
+              end) 0 cs)
+    end.
+End Walk.
